@@ -109,6 +109,7 @@ func cmdPlay(args []string) {
 	seed := fs.Int64("seed", 1, "seed for concretisation")
 	progress := fs.String("progress", "", "file receiving the index of the behaviour being executed (crash attribution)")
 	only := fs.Int("only", -1, "play only the behaviour with this index")
+	proj := fs.String("proj", "", "projection (property id); empty = full records")
 	seedIndex := fs.Int("seedindex", 0, "offset added to the behaviour index when seeding the concretiser (replay of one behaviour)")
 	fs.Parse(args)
 	behs := readBehaviours(*in)
@@ -127,7 +128,7 @@ func cmdPlay(args []string) {
 			fmt.Fprintf(pf, "%-12d\n", i)
 		}
 		rng := rand.New(rand.NewSource(*seed*1000003 + int64(i+*seedIndex)))
-		evs, err := run.Play(b, rng, nil)
+		evs, err := run.Play(b, rng, run.Projections[*proj])
 		if err != nil {
 			die("behaviour %d: %v", i, err)
 		}
